@@ -123,4 +123,11 @@ class Subroutine:  # pylint: disable=too-many-instance-attributes
         Returns:
             Returns a list of subroutines called by the subroutine.
         """
-        return list(set(bi.called_subroutine for bi in self._blocks if bi.is_callsub_block))
+        # in order of first occurrence: a set of Subroutine objects iterates in an order that depends on
+        # memory addresses, and the order of this list decides the order of Function.subroutines and with it
+        # the initial worklist of the dataflow analysis.
+        called: List["Subroutine"] = []
+        for bi in self._blocks:
+            if bi.is_callsub_block and bi.called_subroutine not in called:
+                called.append(bi.called_subroutine)
+        return called
